@@ -126,6 +126,8 @@ World gen_world(Rng &r) {
     // cwd, host, clock
     switch (r.below(5)) { case 0: w.cwd = "/"; break; case 1: w.cwd = "/home/" + gen_token(r, 1, 40, 0); break; case 2: w.cwd = "/" + gen_token(r, 200, 900, 0); break; case 3: w.cwd = "/srv/with space/x"; break; default: w.cwd = "/var/tmp (deleted)"; }
     if (r.chance(1, 12)) w.cwd_errno = 2;
+    // what the shell left in $PWD: the canonical path, another name of the same directory, or a directory left long ago
+    if (!w.environ_null && r.chance(1, 3)) { static const char *alias[] = {".", "/proc/self/cwd", "/somewhere/else", ""}; int k = (int)r.below(6); w.env.insert(w.env.begin() + (long)r.below(w.env.size() + 1), "PWD=" + (k < 4 ? std::string(alias[k]) : k == 4 ? w.cwd : w.cwd + "/.")); }
     w.hostname = r.chance(1, 2) ? "simhost" : gen_token(r, 1, 63, 0);
     if (r.chance(2, 3)) {   // /etc/hosts naming this host in several spellings
         std::string h = w.hostname, H = h; for (auto &ch : H) ch = (char)toupper((unsigned char)ch);
